@@ -10,8 +10,8 @@ from pydv.core import ctx, OutOfSubset
 
 CLAIM = {
     "claimed": True,
-    "category": "bounded",
-    "text": "The real Interp1D / LinearInterp1D / CubicSpline1D / _get_spline_mat_inv / extrapolation code executed on tensors "
+    "category": "other",
+    "text": "BOUNDED (in tensor shapes) deductive verification, not counted as an unbounded proof. The real Interp1D / LinearInterp1D / CubicSpline1D / _get_spline_mat_inv / extrapolation code executed on tensors "
             "of concrete small shapes whose entries are symbolic reals (3 to 6 knots, 1 to 7 queries, all real sample "
             "positions, values and query points at once): on every sample interval [x_j, x_j+1] the result equals the "
             "linear interpolant, resp. the cubic Hermite polynomial with end values y_j, y_j+1 and end slopes k_j, k_j+1, "
@@ -34,7 +34,9 @@ CLAIM = {
 }
 
 META = {
-    "level": "bounded",
+    "level": "other",
+    "explanation": "bounded deductive verification: every obligation is proved by z3/cvc5 for all real values of the tensor entries, "
+                   "for each of the executed tensor shapes (3..6 knots, 1..7 queries, batch 2); nothing is claimed for other shapes",
     "files": ["xitorch/interpolate/interp1.py", "xitorch/_impls/interpolate/interp_1d.py", "xitorch/_impls/interpolate/extrap_utils.py",
               "xitorch/_utils/bcast.py"],
     "functions_under_contract": ["xitorch.interpolate.interp1:Interp1D.__init__/__call__",
